@@ -249,10 +249,28 @@ def main():
 
     def _too_long():
         print(f"TIMEOUT: check {prop} exceeded its overall time limit")
+        try:
+            changed = nv.changed_files()
+        except Exception:  # noqa: BLE001
+            changed = []
+        if changed and tier == "quick":
+            # on the validated tree this check takes seconds to minutes: a run that does not finish on a CHANGED tree means that the
+            # implementation no longer returns under the harness somewhere outside the per-call watchdogs.  The property is no longer
+            # shown to hold; no concrete input was isolated.
+            os.makedirs(os.path.join(nv.OUT, "replays"), exist_ok=True)
+            rp = os.path.join(nv.OUT, "replays", f"{prop}-{int(time.time())}.json")
+            with open(rp, "w") as f:
+                json.dump({"property": prop, "kind": "no-failing-input-found", "seed": seed,
+                           "no_longer_checks": [{"broken": "correspondence", "component": "the check did not complete within its overall time limit "
+                                                 "on a source tree that differs from the validated one: the implementation does not return on generated "
+                                                 "in-contract inputs (outside the per-call watchdogs)", "source_files_changed": changed}]}, f, indent=1)
+            print(f"VIOLATION property={prop} replay={rp} no-failing-input-found")
+            sys.stdout.flush()
+            os._exit(1)
         sys.stdout.flush()
         os._exit(2)
 
-    wd = threading.Timer(1500 if tier == "quick" else 4 * 3600, _too_long)
+    wd = threading.Timer((1500 if not nv.changed_files() else 900) if tier == "quick" else 4 * 3600, _too_long)
     wd.daemon = True
     wd.start()
     try:
